@@ -1,6 +1,8 @@
 #!/bin/bash
 # builds the overflow-checking variant of the harness (profile "checked")
-cd "$(dirname "$0")/../harness" || exit 2
+V="$(cd "$(dirname "$0")/.." && pwd)"
+export CARGO_TARGET_DIR="$V/target"
+cd "$V/harness" || exit 2
 if ! cargo build --profile checked --offline >/dev/null 2>&1; then
     echo "INCONCLUSIVE property=C17 reason=checked-profile harness does not build"
     exit 2
